@@ -982,7 +982,7 @@ func cmdCheck(args []string) int {
 		}
 		rf := replayFile{Format: 1, Property: "C20", Class: "C20/fatal-crash", Site: spec.Scenario, Scenario: spec.Scenario, Tier: cn.Tier, BaseSeed: cn.Base, RunSeed: cn.RunSeed,
 			Violation: core.Violation{Property: "C20", Class: "C20/fatal-crash", Site: spec.Scenario, Detail: fmt.Sprintf("the process executing run w=%d r=%d died: %s", cn.W, cn.R, cn.Stderr)},
-			RepoTree: repoTree(), Crash: true, HangProp: *prop, CrashW: cn.W, CrashR: cn.R, Note: "a fatal runtime error kills the process, so there is no recorded tape to minimise: replay re-executes the run from its seed in a child process"}
+			RepoTree:  repoTree(), Crash: true, HangProp: *prop, CrashW: cn.W, CrashR: cn.R, Note: "a fatal runtime error kills the process, so there is no recorded tape to minimise: replay re-executes the run from its seed in a child process"}
 		b, _ := json.MarshalIndent(rf, "", " ")
 		path := filepath.Join(verifDir, "replays", fmt.Sprintf("%s-%d-crash-%d-%d.json", *prop, seed, cn.W, cn.R))
 		os.MkdirAll(filepath.Dir(path), 0o755)
@@ -1010,7 +1010,7 @@ func cmdCheck(args []string) int {
 		}
 		rf := replayFile{Format: 1, Property: "C20", Class: "C20/nontermination", Site: spec.Scenario, Scenario: spec.Scenario, Tier: hn.Tier, BaseSeed: hn.Base, RunSeed: hn.RunSeed,
 			Violation: core.Violation{Property: "C20", Class: "C20/nontermination", Site: spec.Scenario, Detail: fmt.Sprintf("run w=%d r=%d did not finish within %d s (normal runs take milliseconds)", hn.W, hn.R, hn.LimitS)},
-			RepoTree: repoTree(), Hang: true, HangProp: *prop, Note: "the run never finished, so there is no recorded tape to minimise: replay regenerates the run from run_seed"}
+			RepoTree:  repoTree(), Hang: true, HangProp: *prop, Note: "the run never finished, so there is no recorded tape to minimise: replay regenerates the run from run_seed"}
 		b, _ := json.MarshalIndent(rf, "", " ")
 		path := filepath.Join(verifDir, "replays", fmt.Sprintf("%s-%d-hang-%d-%d.json", *prop, seed, hn.W, hn.R))
 		os.MkdirAll(filepath.Dir(path), 0o755)
@@ -1053,7 +1053,7 @@ func cmdCheck(args []string) int {
 		if len(hashes) > 1 {
 			rf := map[string]any{"format": 1, "property": "C18", "class": "C18/deterministic-differs-across-processes", "scenario": "hist", "base_seed": seed,
 				"violation": map[string]any{"property": "C18", "class": "C18/deterministic-differs-across-processes", "detail": fmt.Sprintf("Marshal(fixed map, Deterministic(true)) hashed differently in different worker processes: %v", hashes)},
-				"note": "re-run `bin/verifsim worker -prop C18 -runs 1` several times and compare det_hash"}
+				"note":      "re-run `bin/verifsim worker -prop C18 -runs 1` several times and compare det_hash"}
 			b, _ := json.MarshalIndent(rf, "", " ")
 			path := filepath.Join(verifDir, "replays", fmt.Sprintf("C18-%d-deterministic-across-processes.json", seed))
 			os.MkdirAll(filepath.Dir(path), 0o755)
@@ -1278,7 +1278,7 @@ func auxRace(seed uint64, tier string) (map[string]any, []string, int) {
 	writeReplay := func(class, detail string) string {
 		rf := map[string]any{"format": 1, "property": "C18", "class": class, "scenario": "hist/aux-race", "tier": tier, "base_seed": seed,
 			"violation": map[string]any{"property": "C18", "class": class, "detail": detail},
-			"note": "auxiliary race-detector run on real goroutines: re-run with `bin/verifsim-race race -seed <base_seed>`; the interleaving is not under the simulator's control, so this replays only probabilistically", "repo_tree": repoTree()}
+			"note":      "auxiliary race-detector run on real goroutines: re-run with `bin/verifsim-race race -seed <base_seed>`; the interleaving is not under the simulator's control, so this replays only probabilistically", "repo_tree": repoTree()}
 		b, _ := json.MarshalIndent(rf, "", " ")
 		path := filepath.Join(verifDir, "replays", fmt.Sprintf("C18-%d-race-%s.json", seed, strings.ReplaceAll(strings.TrimPrefix(class, "C18/"), "/", "-")))
 		os.MkdirAll(filepath.Dir(path), 0o755)
